@@ -3,6 +3,7 @@ binned_masses on synthetic imzML/ibd pairs against PewModel/Imzml.lean (mechanis
 bytes of the .ibd -> dict of spectra -> searchsorted -> sentinel -> reduceat -> [::2] -> zeroing -> placement by
 NumPy subscripts; specification: windowSum per pixel at [y-1][x-1]).  The driver gets the bytes of the .ibd file
 the harness wrote plus the offsets / lengths it wrote into the imzML and decodes the arrays itself."""
+import bisect
 import json
 import math
 import sys
@@ -293,6 +294,19 @@ class C05(Prop):
             and (case["width"]["kind"] == "ppm" or (F(case["width"]["value"]) * grid).denominator == 1) \
             and all((F(m) * grid).denominator == 1 for s in sp for m in s["mz"])
         changed = False
+        # 0. long spectra (tens to thousands of peaks on the grid, the peaks of the case kept): thresholds on the
+        # length of a spectrum; integer intensities whose total stays below 2^24
+        if dyadic and sp and not case["shared"] and rng.random() < 0.04:
+            for s in rng.sample(sp, min(len(sp), rng.choice([1, 1, 2]))):
+                if max(s["it"], default=0) >= 2 ** 20:
+                    continue
+                n = rng.choice([40, 200, 200, 1000, 3000])
+                mz = sorted(set(s["mz"]) | {k / 64 for k in rng.sample(range(94 * 64, 162 * 64), n)})
+                s["mz"] = mz
+                s["it"] = [float(rng.choice([0, 1, 2, 3, 5, 8, 100, 255])) for _ in mz]
+                if s["tic"] is not None and rng.random() < 0.5:
+                    s["tic"] = None
+            changed = True
         # 1. every length rescaled by a power of two (exact): small and large masses, ppm widths at both ends
         if dyadic and rng.random() < 0.15:
             k = 2.0 ** rng.choice([-6, -4, -2, 3, 6, 8])
@@ -321,10 +335,15 @@ class C05(Prop):
             elif r < 0.15:
                 # 1xN, Nx1 and larger grids: the spectra of the case repeated over more positions
                 X, Y = rng.choice([(rng.randint(5, 40), 1), (1, rng.randint(5, 40)), (rng.randint(5, 7), rng.randint(2, 6)),
-                                   (rng.randint(2, 6), rng.randint(5, 7))])
+                                   (rng.randint(2, 6), rng.randint(5, 7)), (12, 12), (rng.randint(100, 400), 1),
+                                   (1, rng.randint(100, 400)), (rng.randint(50, 120), rng.randint(2, 3))])
                 cells = [(x, y) for y in range(1, Y + 1) for x in range(1, X + 1)]
-                keep = rng.choice([1.0, 0.8, 0.5])
-                pos = [p for p in cells if rng.random() < keep] or [rng.choice(cells)]
+                if X * Y > 100:  # positions with several digits, a handful of recorded pixels (also the corners)
+                    pos = rng.sample(cells, rng.randint(1, 6)) + [c for c in ((1, 1), (X, Y), (X, 1)) if rng.random() < 0.3]
+                    pos = list(dict.fromkeys(pos))
+                else:
+                    keep = rng.choice([1.0, 0.8, 0.5])
+                    pos = [p for p in cells if rng.random() < keep] or [rng.choice(cells)]
                 rng.shuffle(pos)
                 old = [dict(s) for s in sp]
                 sp[:] = [{**rng.choice(old), "x": x, "y": y} for (x, y) in pos]
@@ -395,7 +414,11 @@ class C05(Prop):
                     s["tic"] = rng.choice(["%.6f", "%.6e", "%r", "%g"]) % v
         if changed and case.get("reads"):
             case["reads"] = self.gen_reads(rng, case) if case["spectra"] else []
-        # 5. argument types of the main extraction
+        # 5. how the public entry points are called: str or Path, the external binary named explicitly (also when it lies
+        # elsewhere under another name), direct reads through one open handle
+        case["api"] = {"str": rng.random() < 0.3, "ibd-arg": rng.random() < 0.15, "ibd-elsewhere": rng.random() < 0.15,
+                       "read-handle": rng.random() < 0.3}
+        # argument types of the main extraction
         case["targ"] = self.pick_targ(rng, case["masses"], case["width"], scalar=case["scalar"])
         # 6. history on the one object: further extractions (other targets / widths / types), load(), repeats; order
         if rng.random() < 0.55:
@@ -420,7 +443,7 @@ class C05(Prop):
         wt = ("int" if wint else "float") if r < 0.5 else "np-f8" if r < 0.6 else "np-f4" if r < 0.65 else "float"
         if mt == "i4" and wt == "int" and width["kind"] == "ppm" and max(abs(m) for m in masses) * w >= 2 ** 31:
             wt = "float"   # int32 * int: NumPy wraps around (noted in notes/EC05.md; a 25 % window at m/z > 8000)
-        return {"mt": mt, "wt": wt}
+        return {"mt": mt, "wt": wt, "pos": rng.random() < 0.2}
 
     def gen_extra(self, rng, case):
         sp = case["spectra"]
@@ -906,25 +929,36 @@ class C05(Prop):
         kw = {"mass_width_ppm": wobj} if width["kind"] == "ppm" else {"mass_width_mz": wobj}
         return obj, kw, mvals, (width["kind"], wval), mt, wt
 
-    def observe(self, case, path, fast):
+    def observe(self, case, path, ibdp, fast):
         """everything the property observes, through one parser, on one object, in the order of the history"""
         from pewlib.io import imzml as M
 
+        api = case.get("api") or {}
+        arg = str(path) if api.get("str") else path
+        kw0 = {}
+        if ibdp != path.with_suffix(".ibd") or api.get("ibd-arg"):
+            kw0["external_binary"] = str(ibdp) if api.get("str") else ibdp
         try:
-            imz = M.ImzML.from_file(path, use_fast_parse=True) if fast else M.ImzML.from_file(path)
+            imz = M.ImzML.from_file(arg, use_fast_parse=True, **kw0) if fast else M.ImzML.from_file(arg, **kw0)
         except Exception as e:
             return None, {"raises": type(e).__name__, "msg": str(e)[:160]}, None
+
+        def extract(obj, kw, positional):
+            if positional:  # extract_masses(target_masses, mass_width_ppm, mass_width_mz)
+                return imz.extract_masses(obj, kw.get("mass_width_ppm"), kw.get("mass_width_mz"))
+            return imz.extract_masses(obj, **kw)
         impl, impl_bins = {}, None
         for key, c in self.call_list(case):
             op = c["op"]
             if op in ("extract", "again"):
                 obj, kw, *_ = self.call_args(case, c)
-                r = call(lambda: imz.extract_masses(obj, **kw))
+                posl = bool(((case.get("targ") if (c.get("main") or op == "again") else c.get("targ")) or {}).get("pos"))
+                r = call(lambda: extract(obj, kw, posl))
                 impl[key] = r if isinstance(r, dict) else canon_pixels(r)
             elif op == "load":
                 obj, wobj, *_ = self.call_args(case, c)
                 src = imz if c.get("how") == "object" else path
-                ibdp = path.with_suffix(".ibd")
+                src = str(src) if (api.get("str") and src is path) else src
                 r = call((lambda: M.load(src, ibdp, obj)) if wobj is None else (lambda: M.load(src, ibdp, obj, wobj)))
                 if not isinstance(r, dict):
                     r = r[0] if isinstance(r, tuple) and len(r) == 2 else {"raises": "load-did-not-return-a-pair"}
@@ -960,6 +994,11 @@ class C05(Prop):
         doc = gen_imzml.simple_doc([(s["x"], s["y"]) for s in specs], [s["tic"] for s in specs], metas,
                                    size=case["size"], mzdt=case["mzdt"], itdt=case["itdt"], style=case["style"])
         path = gen_imzml.write_pair(d, doc, ibd)
+        ibdp = path.with_suffix(".ibd")
+        if (case.get("api") or {}).get("ibd-elsewhere"):
+            # the external binary under another name in another directory: only the explicit argument finds it
+            (d / "bin").mkdir(exist_ok=True)
+            ibdp = ibdp.rename(d / "bin" / "data.bin.ibd")
         calls = self.call_list(case)
 
         # both parsers of the public entry point ImzML.from_file: the property speaks of every imzML/ibd pair
@@ -967,14 +1006,14 @@ class C05(Prop):
         obs = {}
         fast_unjudged = False
         for name, fast in (("xml", False), ("fast", True)):
-            imz, im, ib = self.observe(case, path, fast)
+            imz, im, ib = self.observe(case, path, ibdp, fast)
             if fast and not specs and imz is None:
                 # a document without any <spectrum>: the fast parser takes the <spectrumList> line for a spectrum and
                 # raises KeyError (DESIGN 9.5, C17: outside the line layout it is written for) - recorded, not judged
                 fast_unjudged = True
                 continue
             obs[name] = {"ok": imz is not None, "impl": im, "bins": ib}
-        reads = self.run_reads(case, path, ibd)
+        reads = self.run_reads(case, ibdp, ibd)
         impl = {k: v["impl"] for k, v in obs.items()}
         if reads is not None:
             impl["reads"] = reads[0]
@@ -1059,6 +1098,7 @@ class C05(Prop):
             return F(8 * len(vals) * eps) * tot
 
         real = case["kind"] == "real"
+        is_sorted = [all(a < b for a, b in zip(mz, mz[1:])) for mz, _ in dvals]
         pix_tol = []  # per <spectrum>: tolerance of sums over the whole spectrum (TIC, bins)
         for mz, it in dvals:
             pix_tol.append(F(8 * max(1, len(it)) * eps) * sum(abs(v) for v in it) if real else sum_tol(it))
@@ -1070,14 +1110,30 @@ class C05(Prop):
             wins = list(zip(edges[::2], edges[1::2]))
             g = edge_guard(real, e["wkind"], e["mvals"], e["wval"], e["mt"], e["wt"], edges)
             out, hit = [], False
+            bands = None if g is None else [[(b - g * abs(b), b + g * abs(b)) for b in w] for w in wins]
             for si, (mz, it) in enumerate(dvals):
                 row = []
-                for lo, hi in wins:
-                    if g is not None and any(abs(q - b) <= g * abs(b) for q in mz for b in (lo, hi)):
-                        row.append(None)
-                        hit = True
-                        continue
-                    row.append(pix_tol[si] if real else sum_tol([v for q, v in zip(mz, it) if lo <= q < hi]))
+                srt = is_sorted[si]
+                for wi, (lo, hi) in enumerate(wins):
+                    if bands is not None:
+                        if srt:
+                            near = False
+                            for a, b in bands[wi]:
+                                i = bisect.bisect_left(mz, a)
+                                if i < len(mz) and mz[i] <= b:
+                                    near = True
+                        else:
+                            near = any(a <= q <= b for q in mz for a, b in bands[wi])
+                        if near:
+                            row.append(None)
+                            hit = True
+                            continue
+                    if real:
+                        row.append(pix_tol[si])
+                    elif srt and len(it) == len(mz):
+                        row.append(sum_tol(it[bisect.bisect_left(mz, lo):bisect.bisect_left(mz, hi)]) if lo < hi else F(0))
+                    else:
+                        row.append(sum_tol([v for q, v in zip(mz, it) if lo <= q < hi]))
                 out.append(row)
             return out, hit
 
@@ -1210,7 +1266,7 @@ class C05(Prop):
             return {"raises": type(e).__name__}
 
     @staticmethod
-    def run_reads(case, path, ibd):
+    def run_reads(case, ibdp, ibd):
         """Spectrum.get_binary_data on the real .ibd for the offsets / lengths / dtypes of the case (inside the file,
         across its end, beyond it, lengths that are no multiple of the element width, both byte orders).
         Returns (impl, model thunk) or None when the case has none / the class cannot be built as documented."""
@@ -1225,11 +1281,21 @@ class C05(Prop):
         except (ImportError, AttributeError, TypeError):
             return None
         impl = []
+        # the documented fast way: one BufferedReader kept open for all reads (each read must seek for itself)
+        handle = ibdp.open("rb") if (case.get("api") or {}).get("read-handle") else None
+        try:
+            return C05._run_reads(reads, getter, handle if handle is not None else ibdp, ibd, impl)
+        finally:
+            if handle is not None:
+                handle.close()
+
+    @staticmethod
+    def _run_reads(reads, getter, source, ibd, impl):
         for i, r in enumerate(reads):
             o = "<" if r["order"] == "little" else ">"
             dt = np.dtype(r["dt"]) if r["dt"] == "u1" else np.dtype(o + r["dt"])
             try:
-                arr = getter(str(i), dt, path.with_suffix(".ibd"))
+                arr = getter(str(i), dt, source)
             except TypeError:
                 return None
             except Exception:  # np.frombuffer: ValueError
@@ -1356,6 +1422,14 @@ class C05(Prop):
                     nontriv.add("pixel:last-missing")
                 if len(pos) == 1:
                     nontriv.add("pixel:single-recorded")
+        api = case.get("api") or {}
+        for k in ("str", "ibd-arg", "ibd-elsewhere", "read-handle"):
+            if api.get(k) and (k != "read-handle" or did_reads):
+                f.add("api:" + {"str": "str-paths", "ibd-arg": "external-binary-argument", "ibd-elsewhere": "external-binary-elsewhere",
+                               "read-handle": "reads-through-one-open-handle"}[k])
+        longest = max((len(mz) for mz, _ in dvals), default=0)
+        if longest >= 32:
+            nontriv.add("spectrum:>=32-peaks" if longest < 512 else "spectrum:>=512-peaks")
         # ---- the history
         ops = [c["op"] for _, c in calls]
         nat = [k for k, _ in calls]
@@ -1379,6 +1453,9 @@ class C05(Prop):
             mt, wt = e["mt"], e["wt"]
             f.add(f"targ:{mt}")
             f.add(f"wtype:{wt}")
+            if key != "extract" and any(k == key and (c.get("targ") or {}).get("pos") for k, c in calls) \
+                    or key == "extract" and (case.get("targ") or {}).get("pos"):
+                f.add("width-passed-positionally")
             f.add(f"width:{e['wkind']}")
             if mt in INT_MT or mt == "list-mixed":
                 nontriv.add(f"int-targets+{'abs' if e['wkind'] == 'mz' else 'ppm'}-width")
@@ -1429,8 +1506,12 @@ class C05(Prop):
                 # type (2^24 / 2^53): any arithmetic that lets them meet the window's content (running totals) loses it
                 doms = [(q, abs(v)) for q, v in zip(mz, it) if abs(v) >= 2 ** p_it]
                 below_of, above_of = set(), set()
+                srt = all(a < b for a, b in zip(mz, mz[1:]))
                 for lo, hi in wins[:60]:
-                    inside = [m for m in mz if lo <= m < hi]
+                    if srt:
+                        inside = mz[bisect.bisect_left(mz, lo):bisect.bisect_left(mz, hi)] if lo < hi else []
+                    else:
+                        inside = [m for m in mz if lo <= m < hi]
                     if lo in mzset:
                         nontriv.add("peak-on-lower-edge")
                     if hi in mzset:
@@ -1451,7 +1532,7 @@ class C05(Prop):
                             nontriv.add("window-has-last-peak")
                         if len(inside) == len(mz) and len(mz) > 1:
                             nontriv.add("window-has-every-peak")
-                        content = sum(abs(v) for q, v in zip(mz, it) if lo <= q < hi)
+                        content = sum(abs(v) for q, v in zip(mz, it) if lo <= q < hi) if doms else 0
                         if content > 0:
                             for q, v in doms:
                                 if v >= content * 2 ** p_it and not (lo <= q < hi):
@@ -1511,6 +1592,8 @@ class C05(Prop):
                 yield {**case, "extra": ex[:i] + [{**x, "targ": None}] + ex[i + 1:]}
         if case.get("targ"):
             yield {**case, "targ": None}
+        if case.get("api"):
+            yield {**case, "api": None}
         for i in range(len(sp)):
             if len(sp) > 1:
                 yield {**case, "spectra": sp[:i] + sp[i + 1:], "shared": False}
